@@ -13,3 +13,75 @@ package flight13
 //@ ensures unknown-flight: !ok ==> gen == nil && !retransmit
 //@ ensures awaiting-flights-retransmit: ok && f != Flight2 ==> retransmit
 //@ end
+
+// The session-store / cipher-suite callbacks are user code; assumed not to modify handshake state.
+//@ assume-pure HandshakeConfig.CustomCipherSuites
+//@ assume-pure handshakeContext.inboundHandshakeHandler
+
+// Issuing the cookie (server start, RFC 9147 5.1): with hello verification on, a fresh 20-byte cookie
+// filled by crypto/rand.Read; a failing random source aborts. (The second rand.Read is the server random.)
+
+//@ func flight0Generate
+//@ watch rand.Read
+//@ requires args: flightCtx != nil && flightCtx.state != nil && flightCtx.state.Common != nil && flightCtx.cfg != nil
+//@ ensures cookie-issued: !old(flightCtx.cfg.InsecureSkipHelloVerify) && result2 == nil ==> len(flightCtx.state.Cookie) == 20 && fresh(flightCtx.state.Cookie)
+//@ ensures cookie-random: !old(flightCtx.cfg.InsecureSkipHelloVerify) ==> called("rand.Read") && (ncalls("rand.Read") == 1 ==> sameSlice(argBytes("rand.Read", 0), flightCtx.state.Cookie))
+//@ ensures rand-failure-aborts: !old(flightCtx.cfg.InsecureSkipHelloVerify) && ncalls("rand.Read") == 1 && retErr("rand.Read", 1) != nil ==> result2 != nil
+//@ ensures second-draw-is-the-server-random: !old(flightCtx.cfg.InsecureSkipHelloVerify) ==> ncalls("rand.Read") <= 2
+//@ ensures sends-nothing: result0 == nil && result1 == nil
+//@ end
+
+// Server start (Flight0): with hello verification enabled the only answer to a first ClientHello is the
+// HelloRetryRequest flight (Flight2), never the ServerHello flight (Flight4).
+
+//@ func flight0Parse
+//@ watch ClientHelloSnapshots.Reset! ClientHelloSnapshots.RecordWire!
+//@ requires args: flightCtx != nil && flightCtx.state != nil && flightCtx.state.Common != nil && flightCtx.cache != nil && flightCtx.cfg != nil && flightCtx.cfg.Log != nil
+//@ requires suites: forall(0, len(flightCtx.cfg.LocalCipherSuites), func(i int) bool { return !isNil(flightCtx.cfg.LocalCipherSuites[i]) })
+//@ loop cipherSuites: offered-non-nil: forall(0, len(cipherSuites), func(k int) bool { return !isNil(cipherSuites[k]) })
+//@ loop cipherSuites: offered-fresh: fresh(cipherSuites)
+//@ loop cipherSuites: local-kept: forall(0, len(cfg.LocalCipherSuites), func(i int) bool { return !isNil(cfg.LocalCipherSuites[i]) })
+//@ ensures cookie-first: !old(flightCtx.cfg.InsecureSkipHelloVerify) ==> result0 == 0 || result0 == Flight2
+//@ ensures outcomes: result0 == 0 || result0 == Flight2 || result0 == Flight4
+//@ ensures first-hello-recorded-afresh: always("ClientHelloSnapshots.RecordWire!", "called(\"ClientHelloSnapshots.Reset!\")")
+//@ ensures first-hello-recorded-once: result0 != 0 ==> ncalls("ClientHelloSnapshots.RecordWire!") == 1 && retErr("ClientHelloSnapshots.RecordWire!", 0) == nil
+//@ end
+
+// Retry check (Flight2): the server moves on to the ServerHello flight (Flight4) only after
+// ValidateClientHelloRetry accepted the second ClientHello against the first one and the
+// HelloRetryRequest (cookie, selected group) that this server sent.
+
+//@ define VARG13(k) argAs("ValidateClientHelloRetry!", k, negotiation.ClientHelloSnapshot{})
+
+// Extension processing, key-share computation and the inbound-handshake hook are separate steps; the retry
+// gate only depends on their failing or not, so they are opaque here (results unknown, inferred write sets).
+//@ func processClientHelloExtensions
+//@ noinline
+//@ end
+
+//@ func generateClientKeyShareSecret
+//@ noinline
+//@ end
+
+//@ func selectClientKeyShare
+//@ noinline
+//@ end
+
+//@ func matchingClientKeyShare
+//@ noinline
+//@ end
+
+//@ func handshakeContext.handleInboundHandshake
+//@ noinline
+//@ end
+
+//@ func flight2Parse
+//@ watch ValidateClientHelloRetry!
+//@ requires args: flightCtx != nil && flightCtx.state != nil && flightCtx.state.Common != nil && flightCtx.cache != nil && flightCtx.cfg != nil && flightCtx.cfg.Log != nil
+//@ ensures outcomes: result0 == 0 || result0 == Flight4
+//@ ensures retry-verified: result0 == Flight4 ==> called("ValidateClientHelloRetry!") && retErr("ValidateClientHelloRetry!", 0) == nil
+//@ ensures first-hello-is-the-reference: result0 == Flight4 ==> sameRef(VARG13(0), flightCtx.state.RemoteClientHelloSnapshots.Initial())
+//@ ensures latest-hello-is-validated: result0 == Flight4 ==> sameRef(VARG13(1), flightCtx.state.RemoteClientHelloSnapshots.Current())
+//@ ensures reference-is-the-recorded-first-hello: result0 == Flight4 && old(flightCtx.state.RemoteClientHelloSnapshots.Initial().Valid()) ==> sameRef(VARG13(0), old(flightCtx.state.RemoteClientHelloSnapshots.Initial()))
+//@ ensures checked-against-the-sent-request: result0 == Flight4 ==> sameRef(argAs("ValidateClientHelloRetry!", 2, negotiation.RetryRequest{}), old(flightCtx.state.HelloRetryRequest))
+//@ end
